@@ -65,6 +65,8 @@ type Sim struct {
 	start    time.Time
 	sticky   int
 	last     string
+	stall    int // permille of scheduler steps at which every parked gate stays parked while time passes
+	stalls   int
 
 	schedPos int
 	schedRng *Rand
@@ -488,6 +490,22 @@ func (s *Sim) Loop(cond func() bool) Stop {
 			}
 			continue
 		}
+		// A stall: everything that is parked stays parked (a slow disk, a slow
+		// peer, a descheduled process) while simulated time passes, so timers
+		// fire and other activities overtake. Off once faults are stopped.
+		if s.stall > 0 && !s.faultsOff.Load() && s.stalls < maxStallsPerRun {
+			if w := s.draw(); w != 0 && int(w%1000) < s.stall {
+				d := stallDurations[int(w/1000)%len(stallDurations)]
+				if d > remaining {
+					d = remaining
+				}
+				s.stalls++
+				s.Count("fault.stall", 1)
+				s.appendJournal(fmt.Sprintf("sched: stall %v with %d gate(s) parked", d, len(ready)))
+				time.Sleep(d)
+				continue
+			}
+		}
 		// Choose among labels (stable across sibling-order differences).
 		labels := make([]string, 0, 8)
 		first := map[string]*Gate{}
@@ -515,6 +533,12 @@ func (s *Sim) Loop(cond func() bool) Stop {
 		s.releaseGate(g)
 	}
 }
+
+const maxStallsPerRun = 60
+
+// Odd microsecond offsets keep stalls from ending exactly on a timer of the system.
+var stallDurations = []time.Duration{time.Millisecond + 37*time.Microsecond, 40*time.Millisecond + 37*time.Microsecond,
+	400*time.Millisecond + 37*time.Microsecond, 1100*time.Millisecond + 37*time.Microsecond, 3*time.Second + 37*time.Microsecond}
 
 // Sleep advances simulated time by d on behalf of the scheduler goroutine
 // (everything else keeps running: timers fire, goroutines arrive at gates).
@@ -684,6 +708,7 @@ func Run(t *testing.T, plan *Plan, opt Options, body func(s *Sim)) *Result {
 				horizon:    opt.Horizon,
 				start:      time.Now(),
 				sticky:     int(plan.C("sched_sticky")),
+				stall:      int(plan.C("sched_stall")),
 				schedRng:   NewRand(plan.Seed, 0x5c4ed),
 				jcap:       opt.JournalCap,
 				counters:   map[string]int64{},
